@@ -257,16 +257,20 @@ def render(rng, f, wild=0.0):
             c = d[1]
             lines.append("")
             ps = ", ".join(p + ": " + (f"{cont}<{ty}>" if cont else ty) for (p, cont, ty) in c["params"])
-            lines.append("condition " + c["name"] + "(" + ps + ") {")
-            pos.append(("cond", None, c["name"], len(lines) - 1, 10))
+            indent = rng.choice(["", "", " ", "\t", "  "]) if wild else ""
+            lines.append(indent + "condition " + c["name"] + "(" + ps + ") {")
+            pos.append(("cond", None, c["name"], len(lines) - 1, len(indent) + 10))
             lines.append("  " + c["expr"])
             lines.append("}")
     if f["broken"] == "syntax":
-        first_cond = next((i for i, l in enumerate(lines) if l.startswith("condition ")), len(lines))
+        first_cond = next((i for i, l in enumerate(lines) if l.strip().startswith("condition ")), len(lines))
         k = rng.randrange(first_cond + 1)      # never inside a condition body, where anything is expression text
         lines.insert(k, rng.choice(["type", "define x [user]", "type a b", "}", "extend x"]))
         pos = [p if p[3] < k else p[:3] + (p[3] + 1,) + p[4:] for p in pos]
-    return "\n".join(lines) + ("\n" if rng.random() < 0.8 else ""), pos
+    text = "\n".join(lines) + ("\n" if rng.random() < 0.8 else "")
+    if wild and rng.random() < 0.25:
+        text = text.replace("\n", "\r\n")      # Windows line ends: the line index of a declaration stays what it is
+    return text, pos
 
 
 # ---------------------------------------------------------------------------------------------
